@@ -37,6 +37,11 @@ CHECKS = {
     technique="z3 polynomial-identity check: the expression returned by the real overlap_isr is identically the antisymmetrised delta product (order 0, equal classes) or identically zero (all other cases) for all ground-state amplitude values and index assignments; overlap_precursor(I,J) vs (J,I) by z3",
     text="For the five ADC variants, the two lowest classes, all class pairs and orders <=2 (thorough <=3, mp and re, with/without singles) z3 decides orthonormality of the derived intermediate states for all amplitude values in models that host both index tuples.",
     note="Bounded orders/classes/models (stated in evidence). Amplitudes are free unknowns, bra amplitudes independent (identified for the precursor-overlap symmetry)."),
+ "C03": dict(
+    level=TV, design="2/C03", engine="detref",
+    technique="z3 polynomial-identity check of each derived secular-matrix block / precursor block / MVP against the order-n coefficient of <I|H-E0|J> between intermediate states built explicitly on occupation bit strings (excitation operators on the normalised perturbed ground state, projection, S^-1/2 from X X S = 1); transpose relation between two real outputs; CrossHair on block_order",
+    text="For all five variants, the blocks and orders of ADC(3) (quick: orders <=2, blocks with <=6 indices), subtract_gs on/off, every matrix element returned by the real code is shown equal to the explicit construction for all integrals, Fock matrices, amplitude values and bra/ket index assignments of the model; MVPs with the documented hidden-factor normalisation.",
+    note="Ground-state corrections are free amplitude unknowns in adcgen's convention (C02/C12 tie them to RSPT). Models: n_o,n_v = max(2,#h/#p); thorough adds 3o3v for small blocks. mp partitioning only (as the property states)."),
 }
 NA_REASON = "check not built yet in this round (planned, see DESIGN.md section 2)"
 
